@@ -418,7 +418,7 @@ def sampled_case(draw):
     }
 
 
-PARAMS = {"quick": 250, "thorough": 6000}
+PARAMS = {"quick": 1000, "thorough": 12000}
 
 
 def shard(ctx):
